@@ -4,8 +4,10 @@ EXTENDS PduFuzz
 Cfg(svc, dids, ss, mn, mx, ni, pre) ==
   [svc |-> svc, dids |-> dids, sessions |-> ss, min |-> mn, max |-> mx, iter |-> ni, prefix |-> pre]
 
-\* a: WriteDataByIdentifier, identifier across the byte boundary, two sessions, two iterations
-CfgsA == {Cfg(46, {258}, ss, mn, 1, 2, pre) : ss \in {{1, 2}, {2, 3}}, mn \in {0, 1}, pre \in {<<>>, <<170>>}}
+\* a: WriteDataByIdentifier, identifier across the byte boundary, two sessions, one iteration, all classes
+CfgsA == {Cfg(46, {258}, ss, mn, 1, 1, pre) : ss \in {{1, 2}, {2, 3}}, mn \in {0, 1}, pre \in {<<>>, <<170>>}}
+\* d: two sessions x two iterations (counters of consecutive sessions)
+CfgsD == {Cfg(46, {258}, {1, 2}, 1, 1, 2, <<>>)}
 \* b: RoutineControl (startRoutine), two identifiers, one session, one iteration, lengths 1..2
 CfgsB == {Cfg(49, {255, 256}, {2}, 1, 2, 1, <<>>), Cfg(49, {1}, {1, 3}, 2, 2, 1, <<187, 204>>)}
 \* c: three iterations in one session (sequences of faults), and zero iterations
@@ -17,6 +19,7 @@ CfgsS == {Cfg(svc, dids, ss, mn, mn + 2, ni, pre) :
 
 ClassesAll  == {"pos", "posfb", "neg49", "neg51", "sil", "mis", "mal", "drop"}
 ClassesCore == {"pos", "neg49", "sil", "mal", "drop"}
+ClassesD    == {"pos", "neg49", "sil", "mal"}
 RefuseAny   == SUBSET {2, 3}
 RefuseSome  == {{}, {2}, {3}}
 RefuseNone  == {{}}
